@@ -1178,3 +1178,76 @@ func checkC20ReadKeyReport(c *Ctx) {
 		r.OK(rule, fnName(RK)+":no-abort-after-read", p.Pos(RK.Pos()), "ReadKey never aborts after its own terminal read")
 	}
 }
+
+// ---- C09.saved-position-not-narrowed (round 7)
+func checkC09SavedPosition(c *Ctx) {
+	p, r := c.P, c.R
+	const rule = "C09.saved-position-not-narrowed"
+	r.Rule(rule, "K2", "the cursor position that (*Sources).Save keeps with a state is clamped to the buffer only (CheckAppend), never to the last character (CheckCommand): the searches take the text before the saved position of the typed line as what to look for, and a position pulled back by one makes `gi` search for `g` (up-line-or-search shows `gx`); the clamp onto a character belongs to vi command mode and is applied by execute after every command", 1)
+	SV := p.Func("(*history.Sources).Save")
+	if SV == nil {
+		r.Unk(rule, "(*history.Sources).Save", "-", "anchor not found")
+		return
+	}
+	r.Fn(fnName(SV))
+	bad := callsTo(SV, false, "(*core.Cursor).CheckCommand")
+	for i, cl := range bad {
+		r.Bad(rule, siteKey(SV, "CheckCommand", i), p.IPos(cl.(ssa.Instruction)), "Save clamps the position it keeps onto the last character of the line: with the cursor at the end of the typed text the saved position is one short, the prefix searches look for the text minus its last character, and coming back down restores the cursor one character to the left")
+	}
+	if len(bad) == 0 {
+		r.OK(rule, fnName(SV)+":position", p.Pos(SV.Pos()), "the kept position is not pulled onto the last character")
+	}
+}
+
+// ---- C06.init-clamps (round 7): the buffer a call starts with gets the clamp every command gets
+func checkC06InitClamps(c *Ctx) {
+	p, r := c.P, c.R
+	const rule = "C06.init-clamps"
+	r.Rule(rule, "K1", "(*Shell).init — which may install a line kept by accept-and-hold or fetched by operate-and-get-next, cursor at its end — puts the cursor on a character when the main keymap is a Vi command keymap, like execute does after every command: on every path from history.Init to the return, assuming Keymap.Main() is vi-command, Cursor.CheckCommand runs — otherwise the call waits with the cursor past the last character and `x` deletes nothing", 1)
+	IN := p.Func("(*readline.Shell).init")
+	if IN == nil {
+		r.Unk(rule, "(*readline.Shell).init", "-", "anchor not found")
+		return
+	}
+	r.Fn(fnName(IN))
+	hi := callsTo(IN, false, "history.Init")
+	if len(hi) == 0 {
+		r.Unk(rule, fnName(IN)+":history.Init", p.Pos(IN.Pos()), "init does not call history.Init: anchor changed")
+		return
+	}
+	assume := func(cond ssa.Value) (bool, bool) {
+		bo, ok := cond.(*ssa.BinOp)
+		if !ok || (bo.Op != token.EQL && bo.Op != token.NEQ) {
+			return false, false
+		}
+		var k string
+		var other ssa.Value
+		if s, isS := constString(bo.Y); isS {
+			k, other = s, bo.X
+		} else if s, isS := constString(bo.X); isS {
+			k, other = s, bo.Y
+		} else {
+			return false, false
+		}
+		cl, isC := stripConv(other).(*ssa.Call)
+		if !isC || calleeName(cl) != "(*keymap.Engine).Main" {
+			return false, false
+		}
+		eq := k == "vi-command"
+		if bo.Op == token.NEQ {
+			return !eq, true
+		}
+		return eq, true
+	}
+	after := false
+	isClamp := func(x ssa.Instruction) bool { return isCallTo(x, "(*core.Cursor).CheckCommand") }
+	// reachUnder starts at the entry: the clamp must come after history.Init, so cut only clamps that history.Init dominates
+	w := reachUnder(IN, assume, func(x ssa.Instruction) bool { return isReturn(x) && x.Block() != IN.Recover }, func(x ssa.Instruction) bool {
+		if isClamp(x) && instrDominates(hi[0].(ssa.Instruction), x) {
+			after = true
+			return true
+		}
+		return false
+	})
+	r.Check(w == nil && after, rule, fnName(IN)+":clamp-after-history-init", p.IPos(hi[0].(ssa.Instruction)), "CheckCommand follows history.Init in Vi command mode", "with a Vi command keymap as the main keymap, init returns without putting the cursor on a character after history.Init installed the kept / fetched line (cursor at its end): Readline waits with the cursor past the last character")
+}
